@@ -42,7 +42,8 @@ type StructDataProvider struct {
 
 func (s *StructDataProvider) Get(key string) any {
 	field := s.value.FieldByName(key)
-	if !field.IsValid() {
+	// unexported fields cannot be read: treat them like missing ones
+	if !field.IsValid() || !field.CanInterface() {
 		return nil
 	}
 	return field.Interface()
@@ -55,7 +56,7 @@ func (s *StructDataProvider) GetByField(field reflect.StructField, fallback stri
 
 func (s *StructDataProvider) GetNestedProvider(key string) DataProvider {
 	field := s.value.FieldByName(key)
-	if !field.IsValid() {
+	if !field.IsValid() || !field.CanInterface() {
 		return nil
 	}
 	dataProvider, _ := TryNewAnyDataProvider(field.Interface())
@@ -127,6 +128,16 @@ func (e *EmptyDataProvider) GetUnderlying() any {
 	return e.Underlying
 }
 
+// unnamedMap returns x as a map[string]T, converting named map types (type M map[string]T).
+// ok is false when the key or element type is itself a named type.
+func unnamedMap[T any](x reflect.Value) (map[string]T, bool) {
+	t := reflect.TypeOf(map[string]T(nil))
+	if !x.Type().ConvertibleTo(t) {
+		return nil, false
+	}
+	return x.Convert(t).Interface().(map[string]T), true
+}
+
 func TryNewAnyDataProvider(val any) (DataProvider, error) {
 	dp, ok := val.(DataProvider)
 	if ok {
@@ -148,18 +159,27 @@ func TryNewAnyDataProvider(val any) (DataProvider, error) {
 
 		switch valTyp.Kind() { // TODO: add more types
 		case reflect.String:
-			return NewSafeMapDataProvider(x.Interface().(map[string]string)), nil
+			if m, ok := unnamedMap[string](x); ok {
+				return NewSafeMapDataProvider(m), nil
+			}
 		case reflect.Int:
-			return NewSafeMapDataProvider(x.Interface().(map[string]int)), nil
+			if m, ok := unnamedMap[int](x); ok {
+				return NewSafeMapDataProvider(m), nil
+			}
 		case reflect.Float64:
-			return NewSafeMapDataProvider(x.Interface().(map[string]float64)), nil
+			if m, ok := unnamedMap[float64](x); ok {
+				return NewSafeMapDataProvider(m), nil
+			}
 		case reflect.Bool:
-			return NewSafeMapDataProvider(x.Interface().(map[string]bool)), nil
+			if m, ok := unnamedMap[bool](x); ok {
+				return NewSafeMapDataProvider(m), nil
+			}
 		case reflect.Interface:
-			return NewSafeMapDataProvider(x.Interface().(map[string]any)), nil
-		default:
-			return &EmptyDataProvider{Underlying: val}, fmt.Errorf("could not convert map[string]%s to a data provider", valTyp.String())
+			if m, ok := unnamedMap[any](x); ok {
+				return NewSafeMapDataProvider(m), nil
+			}
 		}
+		return &EmptyDataProvider{Underlying: val}, fmt.Errorf("could not convert %s to a data provider", x.Type().String())
 
 	case reflect.Struct:
 		return &StructDataProvider{value: x, tag: nil}, nil
